@@ -117,6 +117,45 @@ fn check_all(eg: &EGraph<LSym, ASym>, handles: &[AppliedId], out: &mut CaseOut) 
     Ok(())
 }
 
+/// all invocations of `h`'s class obtained by permuting the arguments of `h` (classes with up to three arguments)
+fn permuted_invocations(h: &AppliedId) -> Vec<AppliedId> {
+    let vals: Vec<Slot> = h.m.values_vec();
+    if vals.len() < 2 || vals.len() > 3 {
+        return vec![];
+    }
+    let idx: Vec<Vec<usize>> = if vals.len() == 2 { vec![vec![1, 0]] } else { vec![vec![1, 0, 2], vec![0, 2, 1], vec![2, 1, 0], vec![1, 2, 0], vec![2, 0, 1]] };
+    idx.into_iter().map(|p| { let m: SlotMap = vals.iter().enumerate().map(|(i, v)| (*v, vals[p[i]])).collect(); h.apply_slotmap_partial(&m) }).collect()
+}
+
+/// C13 with an analysis attached: equalities once observed (between handles, and between a handle and its permuted invocations)
+/// must still hold; returns the first lost one
+fn recheck(eg: &EGraph<LSym, ASym>, rec: &[(AppliedId, AppliedId, usize)]) -> Option<String> {
+    for (a, b, at) in rec {
+        if !eg.eq(a, b) {
+            return Some(format!("{a:?} = {b:?} held after step {at} and does not hold any more"));
+        }
+    }
+    None
+}
+
+fn record(eg: &EGraph<LSym, ASym>, hs: &[AppliedId], step: usize, rec: &mut Vec<(AppliedId, AppliedId, usize)>) {
+    if rec.len() > 400 {
+        return;
+    }
+    for (i, a) in hs.iter().enumerate() {
+        for v in permuted_invocations(a) {
+            if eg.eq(a, &v) && !rec.iter().any(|r| r.0 == *a && r.1 == v) {
+                rec.push((a.clone(), v, step));
+            }
+        }
+        for b in &hs[i + 1..] {
+            if eg.eq(a, b) && !rec.iter().any(|r| r.0 == *a && r.1 == *b) {
+                rec.push((a.clone(), b.clone(), step));
+            }
+        }
+    }
+}
+
 pub fn eval(h: &History, sparse: bool, rw_seed: Option<u64>) -> CaseOut {
     let lang = &LSYM;
     let mut out = CaseOut::default();
@@ -128,6 +167,7 @@ pub fn eval(h: &History, sparse: bool, rw_seed: Option<u64>) -> CaseOut {
     let p0 = eg.progress();
     let mut prev = (p0.number_of_live_classes, p0.sum_of_slots, p0.sum_of_symmetries, p0.number_of_classes);
     let (mut red, mut sym, mut died) = (0u64, 0u64, 0u64);
+    let mut rec: Vec<(AppliedId, AppliedId, usize)> = vec![];
     for (step, op) in h.ops.iter().enumerate() {
         let mut before: Option<(DS, DS)> = None;
         let r = guard(|| match op {
@@ -202,6 +242,19 @@ pub fn eval(h: &History, sparse: bool, rw_seed: Option<u64>) -> CaseOut {
             out.fail(Fail::new("inconsistent", sig, format!("after step {step} ({}): {d}", text[step]), cj.clone()));
             return out;
         }
+        match guard(|| recheck(&eg, &rec)) {
+            Err(p) => {
+                out.fail(Fail::panic("panic", &p, &format!("eq of recorded invocations after step {step}"), cj.clone()));
+                return out;
+            }
+            Ok(Some(d)) => {
+                out.fail(Fail::new("equality-lost", "recorded-equality-lost", format!("after step {step} ({}): {d}", text[step]), cj.clone()));
+                return out;
+            }
+            Ok(None) => {}
+        }
+        out.add("recorded_equalities_rechecked", rec.len() as u64);
+        let _ = guard(|| record(&eg, &hs, step, &mut rec));
     }
     // rewriting on top (rules that create redundancy, symmetries and binders by themselves), the analysis still attached
     if let Some(rs) = rw_seed {
@@ -236,6 +289,19 @@ pub fn eval(h: &History, sparse: bool, rw_seed: Option<u64>) -> CaseOut {
                 out.fail(Fail::new("inconsistent", sig, format!("after rewrite iteration {it} with {names:?}: {d}"), cj.clone()));
                 return out;
             }
+            match guard(|| recheck(&eg, &rec)) {
+                Err(p) => {
+                    out.fail(Fail::panic("panic", &p, &format!("eq of recorded invocations after rewrite iteration {it}"), cj.clone()));
+                    return out;
+                }
+                Ok(Some(d)) => {
+                    out.fail(Fail::new("equality-lost", "recorded-equality-lost", format!("after rewrite iteration {it} with {names:?}: {d}"), cj.clone()));
+                    return out;
+                }
+                Ok(None) => {}
+            }
+            out.add("recorded_equalities_rechecked", rec.len() as u64);
+            let _ = guard(|| record(&eg, &hs, 1000 + it, &mut rec));
         }
     }
     let c = CALLS.with(|c| c.get());
